@@ -182,7 +182,7 @@ def main():
             reach_all[h["name"] + "." + k] = n
         notes += [h["name"] + ": " + n for n in (r.get("notes") or [])]
         for s in (r.get("samples") or [])[:2]:
-            samples.append(dict(harness=h["name"], decisions=s["Decisions"][:60], inputs=s.get("Inputs"), reach=s.get("Reach"), steps=s["Steps"]))
+            samples.append(dict(harness=h["name"], decisions=(s.get("Decisions") or [])[:60], inputs=s.get("Inputs"), reach=s.get("Reach"), steps=s["Steps"]))
         if h.get("witness"):
             # vacuity guard: the twin that ends in Fail must be reported violated
             if not any(v["label"] == "witness" for v in viol):
